@@ -336,14 +336,20 @@ class Livetime(
         cum_ontime_bins = np.array([0], dtype=np.float64)
         cum_ontime_bins = np.append(cum_ontime_bins, np.cumsum(ontime_bins))
 
-        # For odd (on-time) mjds, use the cumulative value of the previous bin
-        # and add the part of the interval bin up to the mjd value.
-        livetimes = np.where(
-            odd_idxs_mask,
-            cum_ontime_bins[idxs-1]
-            + mjds
-            - self._get_onoff_intervals()[onoff_idxs-1],
-            cum_ontime_bins[idxs])
+        if self.n_uptime_mjd_intervals == 0:
+            # There is no up-time interval at all, e.g. the live-time of a
+            # data subset for a time range without on-time. Hence, there is
+            # no interval edge to index and the cumulative live-time is zero.
+            livetimes = np.zeros(mjds.shape, dtype=np.float64)
+        else:
+            # For odd (on-time) mjds, use the cumulative value of the previous
+            # bin and add the part of the interval bin up to the mjd value.
+            livetimes = np.where(
+                odd_idxs_mask,
+                cum_ontime_bins[idxs-1]
+                + mjds
+                - self._get_onoff_intervals()[onoff_idxs-1],
+                cum_ontime_bins[idxs])
 
         if not issequence(mjd):
             return livetimes.item()
